@@ -15,3 +15,20 @@ package metaclient
 //@ func (*Client).pollForUpdatesV2
 //@   call .UpdateAuthCache
 //@     requires [purge_against_the_current_snapshot] arg0 == c.cacheData.Users
+
+// ================================================================ C11: which shard groups a query consults
+// Every shard group of the policy is examined: the list is ordered by END time, a group that starts after the query
+// range says nothing about the groups that follow it (after a shard-duration change a later, longer group can envelop
+// it). No early exit: a successful call has looked at every group.
+//@ prop C11
+//@ func (*Client).ShardGroupsByTimeRange
+//@   stable meta.RetentionPolicyInfo.ShardGroups
+//@   ghost total int = 0
+//@   ghost seen int = 0
+//@   call .RetentionPolicy
+//@     set total = len(ret0.ShardGroups)
+//@   call (*ShardGroupInfo).Deleted
+//@     set seen = seen + 1
+//@   ensures [every_group_of_the_policy_is_examined] result1 == nil ==> seen == total
+//@   loop 1
+//@     invariant seen == rangeindex + 1 && seen <= total
